@@ -46,6 +46,13 @@ def run(chk):
                         own = (op[2][:-4] if op[2].endswith(".rpm") else op[2]).rsplit(".", 1)[-1]
                         if (own in ("src", "nosrc")) != (op[5] == "source"):
                             return "add%r succeeded although the category %r disagrees with the RPM's own arch %r" % (tuple(op), op[5], own)
+                    if kind == "rpms" and isinstance(op[2], str):
+                        # documented layout: source package's canonical name -> RPM's canonical name (directory and one '.rpm' dropped)
+                        canon = lambda n: (n[:-4] if n.endswith(".rpm") else n).rsplit("/", 1)[-1]
+                        skey, rkey = canon(op[6] or op[2]), canon(op[2])
+                        ent = new[op[0]][op[1]].get(skey, {}).get(rkey)
+                        if not ent or ent.get("path") != op[3]:
+                            return "add%r succeeded but nothing is filed under [%r][%r]" % (tuple(op), skey, rkey)
                     if kind == "rpms":
                         hit = [e for sr in new[op[0]][op[1]].values() for e in sr.values()
                                if e["path"] == op[3] and e["category"] == op[5] and e["sigkey"] == (op[4].lower() if op[4] is not None else None)]
@@ -92,8 +99,16 @@ def run(chk):
                       impl_fn="impl_dump_for_tree", nontrivial=lambda c, r: r[0] == "ok" and len(r[1]) >= 1)
     rcases = [{"path": p, "root": r} for p in S.XPATHS + ["Server/x86_64/os", "Server/x86_64/os/", "/x/y", "x//y"]
               for r in ["Server/x86_64/os", "Server/x86_64/os/", "Server/x86_64/os///", "Server", "", "/", "//", "Server/x86_64/o", "x", "/x"]]
+    def oracle_rel(c, r):
+        # the base path, however many slashes it ends in, is stripped exactly when it is a prefix on a component boundary
+        base = c["root"].rstrip("/")
+        want = c["path"][len(base) + 1:] if c["path"].startswith(base + "/") else c["path"]
+        if r != want:
+            return "_relative_to(%r, %r) = %r, documented: %r" % (c["path"], c["root"], r, want)
+        return None
+
     core.differential(chk, "ops_manifests:relative_to", rcases, "relative_to", model_cases=[[c["path"], c["root"]] for c in rcases],
-                      impl_fn="impl_relative_to", nontrivial=lambda c, r: r != c["path"])
+                      impl_fn="impl_relative_to", nontrivial=lambda c, r: r != c["path"], oracle=oracle_rel)
     return chk.finish(
         rule="histories of 1-8 add calls per manifest kind, 65-70% with consistent valid arguments, the rest with every parameter "
              "drawn from valid and invalid pools; after EACH call the outcome class and the whole mapping are compared with the "
